@@ -18,7 +18,6 @@ variable {A : Type}
 
 set_option linter.unusedSimpArgs false
 
-theorem mem_all (t : Str) (h : t ∈ T.all) : t ∈ T.all := h
 
 theorem line_faithful_VERTEX_XY (env : Env A) (customs : List (CustomType A)) (params : List (Param A)) (line : Str) (tid : Str) (toks : List Str) (i : Int) (arr : List A)
     (hs : startsWith (withSp T.vertexXY) line = true)
@@ -27,8 +26,8 @@ theorem line_faithful_VERTEX_XY (env : Env A) (customs : List (CustomType A)) (p
     (hi : env.parseI tid = some i)
     :
     parseLine env customs params line = .ok (.vertex ⟨i, ⟨.r2, arr⟩⟩) := by
-  have e := fun t' h1 h2 => startsWith_excl (t' := t') (mem_all T.vertexXY (by simp [T.all])) h1 h2 hs
-  simp [parseLine, Vertex.fromG2O, EdgeOdometry.fromG2O, EdgeLandmark.fromG2O, Param.fromG2O, hs, hn, hf, pyInt, hi]
+  have e := fun t' h1 h2 => startsWith_excl (t' := t') (show T.vertexXY ∈ T.all by simp [T.all]) h1 h2 hs
+  simp [parseLine, Vertex.fromG2O, EdgeOdometry.fromG2O, EdgeLandmark.fromG2O, Param.fromG2O, someE, Vertex.from_vertexXY, Vertex.from_vertexTrackXYZ, Vertex.from_vertexSE2, Vertex.from_vertexSE3, EdgeOdometry.from_edgeSE2, EdgeOdometry.from_edgeSE3, EdgeLandmark.from_edgeSE2XY, EdgeLandmark.from_edgeSE3TrackXYZ, Param.from_paramsSE2Offset, Param.from_paramsSE3Offset, hs, hn, hf, pyInt, hi]
 
 theorem line_faithful_VERTEX_TRACKXYZ (env : Env A) (customs : List (CustomType A)) (params : List (Param A)) (line : Str) (tid : Str) (toks : List Str) (i : Int) (arr : List A)
     (hs : startsWith (withSp T.vertexTrackXYZ) line = true)
@@ -37,9 +36,9 @@ theorem line_faithful_VERTEX_TRACKXYZ (env : Env A) (customs : List (CustomType 
     (hi : env.parseI tid = some i)
     :
     parseLine env customs params line = .ok (.vertex ⟨i, ⟨.r3, arr⟩⟩) := by
-  have e := fun t' h1 h2 => startsWith_excl (t' := t') (mem_all T.vertexTrackXYZ (by simp [T.all])) h1 h2 hs
+  have e := fun t' h1 h2 => startsWith_excl (t' := t') (show T.vertexTrackXYZ ∈ T.all by simp [T.all]) h1 h2 hs
   have e_vertexXY := e T.vertexXY (by simp [T.all]) (by decide)
-  simp [parseLine, Vertex.fromG2O, EdgeOdometry.fromG2O, EdgeLandmark.fromG2O, Param.fromG2O, e_vertexXY, hs, hn, hf, pyInt, hi]
+  simp [parseLine, Vertex.fromG2O, EdgeOdometry.fromG2O, EdgeLandmark.fromG2O, Param.fromG2O, someE, Vertex.from_vertexXY, Vertex.from_vertexTrackXYZ, Vertex.from_vertexSE2, Vertex.from_vertexSE3, EdgeOdometry.from_edgeSE2, EdgeOdometry.from_edgeSE3, EdgeLandmark.from_edgeSE2XY, EdgeLandmark.from_edgeSE3TrackXYZ, Param.from_paramsSE2Offset, Param.from_paramsSE3Offset, e_vertexXY, hs, hn, hf, pyInt, hi]
 
 theorem line_faithful_VERTEX_SE2 (env : Env A) (customs : List (CustomType A)) (params : List (Param A)) (line : Str) (tid : Str) (toks : List Str) (i : Int) (a0 a1 a2 : A) (rest : List A)
     (hs : startsWith (withSp T.vertexSE2) line = true)
@@ -48,10 +47,10 @@ theorem line_faithful_VERTEX_SE2 (env : Env A) (customs : List (CustomType A)) (
     (hi : env.parseI tid = some i)
     :
     parseLine env customs params line = .ok (.vertex ⟨i, ⟨.se2, [a0, a1, env.wrap a2]⟩⟩) := by
-  have e := fun t' h1 h2 => startsWith_excl (t' := t') (mem_all T.vertexSE2 (by simp [T.all])) h1 h2 hs
+  have e := fun t' h1 h2 => startsWith_excl (t' := t') (show T.vertexSE2 ∈ T.all by simp [T.all]) h1 h2 hs
   have e_vertexXY := e T.vertexXY (by simp [T.all]) (by decide)
   have e_vertexTrackXYZ := e T.vertexTrackXYZ (by simp [T.all]) (by decide)
-  simp [parseLine, Vertex.fromG2O, EdgeOdometry.fromG2O, EdgeLandmark.fromG2O, Param.fromG2O, e_vertexXY, e_vertexTrackXYZ, hs, hn, hf, pyInt, hi, mkSE2]
+  simp [parseLine, Vertex.fromG2O, EdgeOdometry.fromG2O, EdgeLandmark.fromG2O, Param.fromG2O, someE, Vertex.from_vertexXY, Vertex.from_vertexTrackXYZ, Vertex.from_vertexSE2, Vertex.from_vertexSE3, EdgeOdometry.from_edgeSE2, EdgeOdometry.from_edgeSE3, EdgeLandmark.from_edgeSE2XY, EdgeLandmark.from_edgeSE3TrackXYZ, Param.from_paramsSE2Offset, Param.from_paramsSE3Offset, e_vertexXY, e_vertexTrackXYZ, hs, hn, hf, pyInt, hi, mkSE2]
 
 theorem line_faithful_VERTEX_SE3_QUAT (env : Env A) (customs : List (CustomType A)) (params : List (Param A)) (line : Str) (tid : Str) (toks : List Str) (i : Int) (a0 a1 a2 a3 a4 a5 a6 : A) (rest : List A)
     (hs : startsWith (withSp T.vertexSE3) line = true)
@@ -60,11 +59,11 @@ theorem line_faithful_VERTEX_SE3_QUAT (env : Env A) (customs : List (CustomType 
     (hi : env.parseI tid = some i)
     :
     parseLine env customs params line = .ok (.vertex ⟨i, ⟨.se3, [a0, a1, a2, a3, a4, a5, a6]⟩⟩) := by
-  have e := fun t' h1 h2 => startsWith_excl (t' := t') (mem_all T.vertexSE3 (by simp [T.all])) h1 h2 hs
+  have e := fun t' h1 h2 => startsWith_excl (t' := t') (show T.vertexSE3 ∈ T.all by simp [T.all]) h1 h2 hs
   have e_vertexXY := e T.vertexXY (by simp [T.all]) (by decide)
   have e_vertexTrackXYZ := e T.vertexTrackXYZ (by simp [T.all]) (by decide)
   have e_vertexSE2 := e T.vertexSE2 (by simp [T.all]) (by decide)
-  simp [parseLine, Vertex.fromG2O, EdgeOdometry.fromG2O, EdgeLandmark.fromG2O, Param.fromG2O, e_vertexXY, e_vertexTrackXYZ, e_vertexSE2, hs, hn, hf, pyInt, hi, mkSE3]
+  simp [parseLine, Vertex.fromG2O, EdgeOdometry.fromG2O, EdgeLandmark.fromG2O, Param.fromG2O, someE, Vertex.from_vertexXY, Vertex.from_vertexTrackXYZ, Vertex.from_vertexSE2, Vertex.from_vertexSE3, EdgeOdometry.from_edgeSE2, EdgeOdometry.from_edgeSE3, EdgeLandmark.from_edgeSE2XY, EdgeLandmark.from_edgeSE3TrackXYZ, Param.from_paramsSE2Offset, Param.from_paramsSE3Offset, e_vertexXY, e_vertexTrackXYZ, e_vertexSE2, hs, hn, hf, pyInt, hi, mkSE3]
 
 theorem line_faithful_EDGE_SE2 (env : Env A) (customs : List (CustomType A)) (params : List (Param A)) (line : Str) (t0 t1 : Str) (toks : List Str) (i0 i1 : Int) (a0 a1 a2 : A) (tri : List A) (info : Mat A)
     (hs : startsWith (withSp T.edgeSE2) line = true)
@@ -75,12 +74,12 @@ theorem line_faithful_EDGE_SE2 (env : Env A) (customs : List (CustomType A)) (pa
     (hc : customFromG2O customs line params = .ok none)
     :
     parseLine env customs params line = .ok (.edge ⟨[i0, i1], info, .odometry ⟨.se2, [a0, a1, env.wrap a2]⟩⟩) := by
-  have e := fun t' h1 h2 => startsWith_excl (t' := t') (mem_all T.edgeSE2 (by simp [T.all])) h1 h2 hs
+  have e := fun t' h1 h2 => startsWith_excl (t' := t') (show T.edgeSE2 ∈ T.all by simp [T.all]) h1 h2 hs
   have e_vertexXY := e T.vertexXY (by simp [T.all]) (by decide)
   have e_vertexTrackXYZ := e T.vertexTrackXYZ (by simp [T.all]) (by decide)
   have e_vertexSE2 := e T.vertexSE2 (by simp [T.all]) (by decide)
   have e_vertexSE3 := e T.vertexSE3 (by simp [T.all]) (by decide)
-  simp [parseLine, Vertex.fromG2O, EdgeOdometry.fromG2O, EdgeLandmark.fromG2O, Param.fromG2O, e_vertexXY, e_vertexTrackXYZ, e_vertexSE2, e_vertexSE3, hc, hs, hn, hf, pyInt, hi0, hi1, mkSE2, hx]
+  simp [parseLine, Vertex.fromG2O, EdgeOdometry.fromG2O, EdgeLandmark.fromG2O, Param.fromG2O, someE, Vertex.from_vertexXY, Vertex.from_vertexTrackXYZ, Vertex.from_vertexSE2, Vertex.from_vertexSE3, EdgeOdometry.from_edgeSE2, EdgeOdometry.from_edgeSE3, EdgeLandmark.from_edgeSE2XY, EdgeLandmark.from_edgeSE3TrackXYZ, Param.from_paramsSE2Offset, Param.from_paramsSE3Offset, e_vertexXY, e_vertexTrackXYZ, e_vertexSE2, e_vertexSE3, hc, hs, hn, hf, pyInt, hi0, hi1, mkSE2, hx]
 
 theorem line_faithful_EDGE_SE3_QUAT (env : Env A) (customs : List (CustomType A)) (params : List (Param A)) (line : Str) (t0 t1 : Str) (toks : List Str) (i0 i1 : Int) (a0 a1 a2 a3 a4 a5 a6 : A) (tri : List A) (info : Mat A)
     (hs : startsWith (withSp T.edgeSE3) line = true)
@@ -91,13 +90,13 @@ theorem line_faithful_EDGE_SE3_QUAT (env : Env A) (customs : List (CustomType A)
     (hc : customFromG2O customs line params = .ok none)
     :
     parseLine env customs params line = .ok (.edge ⟨[i0, i1], info, .odometry ⟨.se3, a0 :: a1 :: a2 :: env.normQ a3 a4 a5 a6⟩⟩) := by
-  have e := fun t' h1 h2 => startsWith_excl (t' := t') (mem_all T.edgeSE3 (by simp [T.all])) h1 h2 hs
+  have e := fun t' h1 h2 => startsWith_excl (t' := t') (show T.edgeSE3 ∈ T.all by simp [T.all]) h1 h2 hs
   have e_vertexXY := e T.vertexXY (by simp [T.all]) (by decide)
   have e_vertexTrackXYZ := e T.vertexTrackXYZ (by simp [T.all]) (by decide)
   have e_vertexSE2 := e T.vertexSE2 (by simp [T.all]) (by decide)
   have e_vertexSE3 := e T.vertexSE3 (by simp [T.all]) (by decide)
   have e_edgeSE2 := e T.edgeSE2 (by simp [T.all]) (by decide)
-  simp [parseLine, Vertex.fromG2O, EdgeOdometry.fromG2O, EdgeLandmark.fromG2O, Param.fromG2O, e_vertexXY, e_vertexTrackXYZ, e_vertexSE2, e_vertexSE3, e_edgeSE2, hc, hs, hn, hf, pyInt, hi0, hi1, mkSE3, hx, normalizeSE3]
+  simp [parseLine, Vertex.fromG2O, EdgeOdometry.fromG2O, EdgeLandmark.fromG2O, Param.fromG2O, someE, Vertex.from_vertexXY, Vertex.from_vertexTrackXYZ, Vertex.from_vertexSE2, Vertex.from_vertexSE3, EdgeOdometry.from_edgeSE2, EdgeOdometry.from_edgeSE3, EdgeLandmark.from_edgeSE2XY, EdgeLandmark.from_edgeSE3TrackXYZ, Param.from_paramsSE2Offset, Param.from_paramsSE3Offset, e_vertexXY, e_vertexTrackXYZ, e_vertexSE2, e_vertexSE3, e_edgeSE2, hc, hs, hn, hf, pyInt, hi0, hi1, mkSE3, hx, normalizeSE3]
 
 theorem line_faithful_EDGE_SE2_XY (env : Env A) (customs : List (CustomType A)) (params : List (Param A)) (line : Str) (t0 t1 : Str) (toks : List Str) (i0 i1 : Int) (a0 a1 : A) (tri : List A) (info : Mat A)
     (hs : startsWith (withSp T.edgeSE2XY) line = true)
@@ -108,14 +107,14 @@ theorem line_faithful_EDGE_SE2_XY (env : Env A) (customs : List (CustomType A)) 
     (hc : customFromG2O customs line params = .ok none)
     :
     parseLine env customs params line = .ok (.edge ⟨[i0, i1], info, .landmark ⟨.r2, [a0, a1]⟩ ⟨.se2, identitySE2 env⟩ (some 0)⟩) := by
-  have e := fun t' h1 h2 => startsWith_excl (t' := t') (mem_all T.edgeSE2XY (by simp [T.all])) h1 h2 hs
+  have e := fun t' h1 h2 => startsWith_excl (t' := t') (show T.edgeSE2XY ∈ T.all by simp [T.all]) h1 h2 hs
   have e_vertexXY := e T.vertexXY (by simp [T.all]) (by decide)
   have e_vertexTrackXYZ := e T.vertexTrackXYZ (by simp [T.all]) (by decide)
   have e_vertexSE2 := e T.vertexSE2 (by simp [T.all]) (by decide)
   have e_vertexSE3 := e T.vertexSE3 (by simp [T.all]) (by decide)
   have e_edgeSE2 := e T.edgeSE2 (by simp [T.all]) (by decide)
   have e_edgeSE3 := e T.edgeSE3 (by simp [T.all]) (by decide)
-  simp [parseLine, Vertex.fromG2O, EdgeOdometry.fromG2O, EdgeLandmark.fromG2O, Param.fromG2O, e_vertexXY, e_vertexTrackXYZ, e_vertexSE2, e_vertexSE3, e_edgeSE2, e_edgeSE3, hc, hs, hn, hf, pyInt, hi0, hi1, hx, identitySE2]
+  simp [parseLine, Vertex.fromG2O, EdgeOdometry.fromG2O, EdgeLandmark.fromG2O, Param.fromG2O, someE, Vertex.from_vertexXY, Vertex.from_vertexTrackXYZ, Vertex.from_vertexSE2, Vertex.from_vertexSE3, EdgeOdometry.from_edgeSE2, EdgeOdometry.from_edgeSE3, EdgeLandmark.from_edgeSE2XY, EdgeLandmark.from_edgeSE3TrackXYZ, Param.from_paramsSE2Offset, Param.from_paramsSE3Offset, e_vertexXY, e_vertexTrackXYZ, e_vertexSE2, e_vertexSE3, e_edgeSE2, e_edgeSE3, hc, hs, hn, hf, pyInt, hi0, hi1, hx, identitySE2]
 
 theorem line_faithful_EDGE_SE3_TRACKXYZ (env : Env A) (customs : List (CustomType A)) (params : List (Param A)) (line : Str) (t0 t1 t2 : Str) (toks : List Str) (i0 i1 oid : Int) (a0 a1 a2 : A) (tri : List A) (info : Mat A) (p : Param A)
     (hs : startsWith (withSp T.edgeSE3TrackXYZ) line = true)
@@ -127,7 +126,7 @@ theorem line_faithful_EDGE_SE3_TRACKXYZ (env : Env A) (customs : List (CustomTyp
     (hc : customFromG2O customs line params = .ok none)
     :
     parseLine env customs params line = .ok (.edge ⟨[i0, i1], info, .landmark ⟨.r3, [a0, a1, a2]⟩ p.value (some oid)⟩) := by
-  have e := fun t' h1 h2 => startsWith_excl (t' := t') (mem_all T.edgeSE3TrackXYZ (by simp [T.all])) h1 h2 hs
+  have e := fun t' h1 h2 => startsWith_excl (t' := t') (show T.edgeSE3TrackXYZ ∈ T.all by simp [T.all]) h1 h2 hs
   have e_vertexXY := e T.vertexXY (by simp [T.all]) (by decide)
   have e_vertexTrackXYZ := e T.vertexTrackXYZ (by simp [T.all]) (by decide)
   have e_vertexSE2 := e T.vertexSE2 (by simp [T.all]) (by decide)
@@ -135,7 +134,7 @@ theorem line_faithful_EDGE_SE3_TRACKXYZ (env : Env A) (customs : List (CustomTyp
   have e_edgeSE2 := e T.edgeSE2 (by simp [T.all]) (by decide)
   have e_edgeSE3 := e T.edgeSE3 (by simp [T.all]) (by decide)
   have e_edgeSE2XY := e T.edgeSE2XY (by simp [T.all]) (by decide)
-  simp [parseLine, Vertex.fromG2O, EdgeOdometry.fromG2O, EdgeLandmark.fromG2O, Param.fromG2O, e_vertexXY, e_vertexTrackXYZ, e_vertexSE2, e_vertexSE3, e_edgeSE2, e_edgeSE3, e_edgeSE2XY, hc, hs, hn, hf, pyInt, hi0, hi1, hi2, hp, hx]
+  simp [parseLine, Vertex.fromG2O, EdgeOdometry.fromG2O, EdgeLandmark.fromG2O, Param.fromG2O, someE, Vertex.from_vertexXY, Vertex.from_vertexTrackXYZ, Vertex.from_vertexSE2, Vertex.from_vertexSE3, EdgeOdometry.from_edgeSE2, EdgeOdometry.from_edgeSE3, EdgeLandmark.from_edgeSE2XY, EdgeLandmark.from_edgeSE3TrackXYZ, Param.from_paramsSE2Offset, Param.from_paramsSE3Offset, e_vertexXY, e_vertexTrackXYZ, e_vertexSE2, e_vertexSE3, e_edgeSE2, e_edgeSE3, e_edgeSE2XY, hc, hs, hn, hf, pyInt, hi0, hi1, hi2, hp, hx]
 
 theorem line_faithful_PARAMS_SE2OFFSET (env : Env A) (customs : List (CustomType A)) (params : List (Param A)) (line : Str) (tid : Str) (toks : List Str) (i : Int) (a0 a1 a2 : A) (rest : List A)
     (hs : startsWith (withSp T.paramsSE2Offset) line = true)
@@ -145,7 +144,7 @@ theorem line_faithful_PARAMS_SE2OFFSET (env : Env A) (customs : List (CustomType
     (hc : customFromG2O customs line params = .ok none)
     :
     parseLine env customs params line = .ok (.param ⟨.se2offset, i, ⟨.se2, [a0, a1, env.wrap a2]⟩⟩) := by
-  have e := fun t' h1 h2 => startsWith_excl (t' := t') (mem_all T.paramsSE2Offset (by simp [T.all])) h1 h2 hs
+  have e := fun t' h1 h2 => startsWith_excl (t' := t') (show T.paramsSE2Offset ∈ T.all by simp [T.all]) h1 h2 hs
   have e_vertexXY := e T.vertexXY (by simp [T.all]) (by decide)
   have e_vertexTrackXYZ := e T.vertexTrackXYZ (by simp [T.all]) (by decide)
   have e_vertexSE2 := e T.vertexSE2 (by simp [T.all]) (by decide)
@@ -154,7 +153,7 @@ theorem line_faithful_PARAMS_SE2OFFSET (env : Env A) (customs : List (CustomType
   have e_edgeSE3 := e T.edgeSE3 (by simp [T.all]) (by decide)
   have e_edgeSE2XY := e T.edgeSE2XY (by simp [T.all]) (by decide)
   have e_edgeSE3TrackXYZ := e T.edgeSE3TrackXYZ (by simp [T.all]) (by decide)
-  simp [parseLine, Vertex.fromG2O, EdgeOdometry.fromG2O, EdgeLandmark.fromG2O, Param.fromG2O, e_vertexXY, e_vertexTrackXYZ, e_vertexSE2, e_vertexSE3, e_edgeSE2, e_edgeSE3, e_edgeSE2XY, e_edgeSE3TrackXYZ, hc, hs, hn, hf, pyInt, hi, mkSE2]
+  simp [parseLine, Vertex.fromG2O, EdgeOdometry.fromG2O, EdgeLandmark.fromG2O, Param.fromG2O, someE, Vertex.from_vertexXY, Vertex.from_vertexTrackXYZ, Vertex.from_vertexSE2, Vertex.from_vertexSE3, EdgeOdometry.from_edgeSE2, EdgeOdometry.from_edgeSE3, EdgeLandmark.from_edgeSE2XY, EdgeLandmark.from_edgeSE3TrackXYZ, Param.from_paramsSE2Offset, Param.from_paramsSE3Offset, e_vertexXY, e_vertexTrackXYZ, e_vertexSE2, e_vertexSE3, e_edgeSE2, e_edgeSE3, e_edgeSE2XY, e_edgeSE3TrackXYZ, hc, hs, hn, hf, pyInt, hi, mkSE2]
 
 theorem line_faithful_PARAMS_SE3OFFSET (env : Env A) (customs : List (CustomType A)) (params : List (Param A)) (line : Str) (tid : Str) (toks : List Str) (i : Int) (a0 a1 a2 a3 a4 a5 a6 : A) (rest : List A)
     (hs : startsWith (withSp T.paramsSE3Offset) line = true)
@@ -164,7 +163,7 @@ theorem line_faithful_PARAMS_SE3OFFSET (env : Env A) (customs : List (CustomType
     (hc : customFromG2O customs line params = .ok none)
     :
     parseLine env customs params line = .ok (.param ⟨.se3offset, i, ⟨.se3, [a0, a1, a2, a3, a4, a5, a6]⟩⟩) := by
-  have e := fun t' h1 h2 => startsWith_excl (t' := t') (mem_all T.paramsSE3Offset (by simp [T.all])) h1 h2 hs
+  have e := fun t' h1 h2 => startsWith_excl (t' := t') (show T.paramsSE3Offset ∈ T.all by simp [T.all]) h1 h2 hs
   have e_vertexXY := e T.vertexXY (by simp [T.all]) (by decide)
   have e_vertexTrackXYZ := e T.vertexTrackXYZ (by simp [T.all]) (by decide)
   have e_vertexSE2 := e T.vertexSE2 (by simp [T.all]) (by decide)
@@ -174,6 +173,6 @@ theorem line_faithful_PARAMS_SE3OFFSET (env : Env A) (customs : List (CustomType
   have e_edgeSE2XY := e T.edgeSE2XY (by simp [T.all]) (by decide)
   have e_edgeSE3TrackXYZ := e T.edgeSE3TrackXYZ (by simp [T.all]) (by decide)
   have e_paramsSE2Offset := e T.paramsSE2Offset (by simp [T.all]) (by decide)
-  simp [parseLine, Vertex.fromG2O, EdgeOdometry.fromG2O, EdgeLandmark.fromG2O, Param.fromG2O, e_vertexXY, e_vertexTrackXYZ, e_vertexSE2, e_vertexSE3, e_edgeSE2, e_edgeSE3, e_edgeSE2XY, e_edgeSE3TrackXYZ, e_paramsSE2Offset, hc, hs, hn, hf, pyInt, hi, mkSE3]
+  simp [parseLine, Vertex.fromG2O, EdgeOdometry.fromG2O, EdgeLandmark.fromG2O, Param.fromG2O, someE, Vertex.from_vertexXY, Vertex.from_vertexTrackXYZ, Vertex.from_vertexSE2, Vertex.from_vertexSE3, EdgeOdometry.from_edgeSE2, EdgeOdometry.from_edgeSE3, EdgeLandmark.from_edgeSE2XY, EdgeLandmark.from_edgeSE3TrackXYZ, Param.from_paramsSE2Offset, Param.from_paramsSE3Offset, e_vertexXY, e_vertexTrackXYZ, e_vertexSE2, e_vertexSE3, e_edgeSE2, e_edgeSE3, e_edgeSE2XY, e_edgeSE3TrackXYZ, e_paramsSE2Offset, hc, hs, hn, hf, pyInt, hi, mkSE3]
 
 end GraphSlam.Props.C14
